@@ -832,6 +832,17 @@ func genHTTPCase(t *rapid.T) *HTTPCase {
 			q = string(mutateBytes(t, []byte(q)))
 		}
 		req := map[string]interface{}{"query": q}
+		if rapid.IntRange(0, 7).Draw(t, "introvars") == 0 {
+			// introspection arguments given as variables whose JSON values need not have the declared type
+			// (the gateway does not coerce variable values)
+			req["query"] = rapid.SampledFrom([]string{
+				"query($d: Boolean) { __type(name: \"Query\") { fields(includeDeprecated: $d) { name } } }",
+				"query($d: Boolean = true, $n: String!) { __type(name: $n) { name enumValues(includeDeprecated: $d) { name } fields(includeDeprecated: $d) { name } } }",
+				"query($n: String) { __type(name: $n) { kind } __schema { types { fields(includeDeprecated: true) { name } } } }",
+			}).Draw(t, "introq")
+			odd := []interface{}{"true", 1, 0.5, nil, []interface{}{}, map[string]interface{}{}, true, "Query", []interface{}{true}}
+			req["variables"] = map[string]interface{}{"d": rapid.SampledFrom(odd).Draw(t, "vd"), "n": rapid.SampledFrom(odd).Draw(t, "vn")}
+		}
 		switch rapid.IntRange(0, 9).Draw(t, "opname") {
 		case 0:
 			req["operationName"] = "NoSuchOperation"
@@ -844,6 +855,13 @@ func genHTTPCase(t *rapid.T) *HTTPCase {
 			elems := []interface{}{req, map[string]interface{}{"query": ops[len(ops)-1]}}
 			if rapid.Bool().Draw(t, "withintro") {
 				elems = append(elems, map[string]interface{}{"query": rapid.SampledFrom(introspectionOps).Draw(t, "introop")})
+			}
+			if rapid.IntRange(0, 5).Draw(t, "bigbatch") == 0 {
+				// more operations than any fan-out limit one would think of
+				n := rapid.SampledFrom([]int{16, 17, 33, 65, 130}).Draw(t, "nbig")
+				for len(elems) < n {
+					elems = append(elems, map[string]interface{}{"query": rapid.SampledFrom([]string{"{ __typename }", ops[len(ops)-1], "{ nope }"}).Draw(t, "bigop")})
+				}
 			}
 			order := rapid.Permutation(seq(len(elems))).Draw(t, "batchorder")
 			shuffled := make([]interface{}, len(elems))
